@@ -232,18 +232,26 @@ def fam_split_every(chk, da, rng):
 def _split_every_case(chk, da, fn, data, chunks, axis, want, it):
     shape, ndim = data.shape, data.ndim
     results = {}
-    for how, k in [("default", None), ("kw", 2), ("kw", 3), ("kw", 4), ("config", 2), ("config", 3), ("kw", 64)]:
+    alive = []        # every collection of this case stays alive: a later tree must not be served an earlier tree's nodes
+    settings = [("default", None), ("kw", 2), ("kw", 3), ("kw", 4), ("config", 2), ("config", 3), ("kw", 64)]
+    if it % 2:
+        settings = settings[::-1]
+    for how, k in settings:
         try:
             with warnings.catch_warnings():
                 warnings.simplefilter("ignore")
                 x = da.from_array(data, chunks=chunks)
                 if how == "config":
                     with dask.config.set(split_every=k):
-                        got = getattr(da, fn)(x, axis=axis).compute(scheduler="sync")
+                        r = getattr(da, fn)(x + 0, axis=axis)
+                        got = r.compute(scheduler="sync")
                 elif how == "kw":
-                    got = getattr(da, fn)(x, axis=axis, split_every=k).compute(scheduler="sync")
+                    r = getattr(da, fn)(x + 0, axis=axis, split_every=k)
+                    got = r.compute(scheduler="sync")
                 else:
-                    got = getattr(da, fn)(x, axis=axis).compute(scheduler="sync")
+                    r = getattr(da, fn)(x + 0, axis=axis)
+                    got = r.compute(scheduler="sync")
+                alive.append(r)
             results[(how, k)] = ("ok", got)
         except Exception as e:  # noqa: BLE001
             results[(how, k)] = ("raises", err_sig(e))
@@ -317,10 +325,16 @@ def fam_mutation_history(chk, da, rng):
             elif how == "derive":
                 (x + 1).compute(scheduler="sync")
 
+        persisted = it % 3 == 0
         try:
             with warnings.catch_warnings():
                 warnings.simplefilter("ignore")
-                x, v = da.from_array(data.copy(), chunks=chunks) * 1.0, data.copy()
+                base = (da.from_array(data.copy(), chunks=chunks) * 1.0)
+                if persisted:
+                    # a persisted collection (its blocks are concrete arrays held by the graph) and an independent copy that is updated
+                    base = base.persist(scheduler="sync")
+                    base_before = base.compute(scheduler="sync").copy()
+                x, v = (base.copy() if persisted else base), data.copy()
                 fresh = da.from_array(data.copy(), chunks=chunks) * 1.0
                 vf = data.copy()
                 for up, pk in zip(ups, peeks):
@@ -334,7 +348,17 @@ def fam_mutation_history(chk, da, rng):
         except Exception as e:  # noqa: BLE001
             chk.count("mutation:skipped-raises:" + err_sig(e)[:24])
             continue
-        chk.case(("mutation-history", repr(ups), repr(peeks), shape, repr(chunks)), nontrivial=any(p != "none" for p in peeks),
+        if persisted:
+            chk.count("mutation:persisted-base")
+            with warnings.catch_warnings():
+                warnings.simplefilter("ignore")
+                base_after = base.compute(scheduler="sync")
+                base_derived = (base + 1).compute(scheduler="sync")
+            if not progs.values_equal(base_after, base_before)[0] or not progs.values_equal(base_derived, base_before + 1)[0]:
+                chk.violation("computing an updated COPY of a persisted collection changed what the persisted collection itself evaluates to",
+                              {"shape": shape, "chunks": chunks, "updates": ups, "before": base_before.tolist(), "after": np.asarray(base_after).tolist()},
+                              signature={"class": "mutation-history", "last_update": ups[-1][0], "persisted_base_changed": True})
+        chk.case(("mutation-history", repr(ups), repr(peeks), shape, repr(chunks), persisted), nontrivial=any(p != "none" for p in peeks),
                  sample={"updates": ups, "materialised_before_each": peeks} if it < 2 else None)
         for kind, _, _ in ups:
             chk.count("mutation:" + kind)
